@@ -168,6 +168,8 @@ type Env struct {
 	SkipSender bool
 	SkipRecv   bool
 	Extra      func(sconn, rconn transfer.Conn) // scripted peer thread bodies started by the mode
+	SendOpts   func(o *transfer.Options)
+	RecvOpts   func(o *transfer.Options)
 }
 
 func sendOpts(p *Prepared) transfer.Options {
@@ -240,7 +242,11 @@ func runTransfer(p *Prepared, env *Env) *Outcome {
 			}
 			// production passes "." and an absolute resolver; without resolver the root itself
 			root := p.Root
-			o.SendErr = transfer.SendManifestMultiStream(ctx, sconn, root, p.M, sendOpts(p))
+			so := sendOpts(p)
+			if env != nil && env.SendOpts != nil {
+				env.SendOpts(&so)
+			}
+			o.SendErr = transfer.SendManifestMultiStream(ctx, sconn, root, p.M, so)
 			o.SendDone = true
 			vrt.Emit("S.return", o.SendErr)
 			// mirrors the defer chain of runICEQUICTransfer: multi.Close / transferConn.Close
@@ -259,7 +265,11 @@ func runTransfer(p *Prepared, env *Env) *Outcome {
 			if env != nil && env.RecvCtx != nil {
 				env.RecvCtx(ctx, cancel)
 			}
-			_, o.RecvErr = transfer.RecvManifestMultiStream(ctx, rconn, o.OutDir, recvOpts(p))
+			ro := recvOpts(p)
+			if env != nil && env.RecvOpts != nil {
+				env.RecvOpts(&ro)
+			}
+			_, o.RecvErr = transfer.RecvManifestMultiStream(ctx, rconn, o.OutDir, ro)
 			o.RecvDone = true
 			vrt.Emit("R.return", o.RecvErr)
 			rconn.Close()
@@ -272,7 +282,7 @@ func runTransfer(p *Prepared, env *Env) *Outcome {
 		env.Extra(sconn, rconn)
 	}
 	wg.Wait()
-	if o.SendErr == nil && o.RecvErr == nil && (env == nil || (!env.SkipSender && !env.SkipRecv)) {
+	if (o.SendErr == nil || o.RecvErr == nil) && (env == nil || (!env.SkipSender && !env.SkipRecv)) {
 		o.TreeDiff = compareTree(p, o.OutDir)
 	}
 	return o
